@@ -34,7 +34,7 @@ def to_string(v):
     if isinstance(v, Kw):
         return v.b
     if v is None:
-        return b"nil"
+        return b""      # like (string nil): a nil capture adds nothing to an accumulated string
     raise ValueError("to_string of %r not modelled" % (v,))
 
 
